@@ -56,7 +56,16 @@ pub fn make_conc_case(real_prop: &str, seed: u64, tier: Tier) -> Case {
     let mut r = Rng::new(seed ^ crate::rng::hash_str(7, real_prop));
     // C19 (waiting protocol) rides on every scenario family: readers, cross-thread cycles,
     // writer cancellation, token cancellation, panics with waiters
-    let prop: &str = if real_prop == "C19" { *r.pick(&["C16", "C18", "C18", "C20", "C21", "C22", "C21+C22", "C21+C22"]) } else { real_prop };
+    let prop: &str = if real_prop == "C19" {
+        *r.pick(&["C16", "C18", "C18", "C20", "C21", "C22", "C21+C22", "C21+C22"])
+    } else if real_prop == "C23" {
+        // memory safety under schedules: rides on the concurrent families that free or recycle
+        // memory while other threads run (writes + cancellation, LRU, interned reclamation,
+        // struct creation, cycles, unwinding), executed under the quarantining allocator
+        *r.pick(&["C08", "C17", "C18", "C20", "C20", "C20", "C21", "C22", "C24", "C21+C22"])
+    } else {
+        real_prop
+    };
     // combined family: token cancellation and a user panic in the same round
     let combined = prop == "C21+C22";
     let prop: &str = if combined { "C21" } else { prop };
@@ -76,6 +85,12 @@ pub fn make_conc_case(real_prop: &str, seed: u64, tier: Tier) -> Case {
         c.yields = true;
         c.block = (2, if thorough { 6 } else { 4 });
         c.ops = (2, 5);
+        // tiny bodies: members that read (almost) nothing but each other — their memos have no
+        // own inputs, so durability and revalidation shortcuts decide what happens to them
+        let tiny = r.pct(35);
+        if tiny {
+            c.ops = (1, 2);
+        }
         match prop {
             "C14" => {
                 c.block_kinds = vec![(Kind::Plain, 3), (Kind::Fix, 2)];
@@ -90,6 +105,9 @@ pub fn make_conc_case(real_prop: &str, seed: u64, tier: Tier) -> Case {
                 c.ret_if_top = r.pct(40);
                 class = "cyclic_fixpoint".to_string();
             }
+        }
+        if tiny {
+            class = format!("{class}+tiny");
         }
         gen_cyclic(&mut r, &c)
     } else {
@@ -145,6 +163,7 @@ pub fn make_conc_case(real_prop: &str, seed: u64, tier: Tier) -> Case {
     };
     let mut rounds = vec![];
     let mut cur = world.clone();
+    let mut written_fields: Vec<(usize, usize)> = vec![];
     // revalidation-race motif: everybody computes X; a joined write changes a field read by a
     // node L below X; then one thread re-validates X while another requests L directly
     let mut race: Option<(u16, u16, (usize, usize))> = None;
@@ -234,7 +253,28 @@ pub fn make_conc_case(real_prop: &str, seed: u64, tier: Tier) -> Case {
             "C20" => {
                 let op = match r.below(10) {
                     0..=4 => {
-                        let (i, f) = (r.usize(prog.n_inputs), r.usize(3));
+                        // mostly fields that some body reads (a write to an unread field cancels
+                        // readers but changes nothing); block members first for cyclic programs
+                        let mut read_blk: Vec<(usize, usize)> = vec![];
+                        let mut read_any: Vec<(usize, usize)> = vec![];
+                        for (ni, nd) in prog.nodes.iter().enumerate() {
+                            for op in &nd.ops {
+                                if let Op::In { i, f, .. } = op {
+                                    read_any.push((*i as usize, *f as usize));
+                                    if (ni as u16) >= prog.blk_lo && (ni as u16) < prog.blk_hi {
+                                        read_blk.push((*i as usize, *f as usize));
+                                    }
+                                }
+                            }
+                        }
+                        let (i, f) = if !read_blk.is_empty() && r.pct(50) {
+                            *r.pick(&read_blk)
+                        } else if !read_any.is_empty() && r.pct(70) {
+                            *r.pick(&read_any)
+                        } else {
+                            (r.usize(prog.n_inputs), r.usize(3))
+                        };
+                        written_fields.push((i, f));
                         let v = r.below(m) as u32;
                         cur.ins[i][f] = v;
                         WriterOp::SetIn { i: i as u16, f: f as u8, v }
@@ -270,6 +310,7 @@ pub fn make_conc_case(real_prop: &str, seed: u64, tier: Tier) -> Case {
             let (i, f) = if let Some((_, _, fld)) = race { fld } else if !read_fields.is_empty() && r.pct(80) { *r.pick(&read_fields) } else { (r.usize(prog.n_inputs), r.usize(3)) };
             let v = if race.is_some() { (cur.ins[i][f] + 1 + r.below(m - 1) as u32) % prog.m } else { r.below(m) as u32 };
             cur.ins[i][f] = v;
+            written_fields.push((i, f));
             rounds.push(Round { readers: vec![], writer: Some(WriterOp::SetIn { i: i as u16, f: f as u8, v }), ..Default::default() });
         }
     }
@@ -282,9 +323,15 @@ pub fn make_conc_case(real_prop: &str, seed: u64, tier: Tier) -> Case {
     // durability profile for the concurrent classes that involve writes / cancellation
     let mut field_durs = vec![];
     if matches!(prop, "C20" | "C21" | "C17") && r.pct(50) {
+        // contrast profile: the fields the writer touches stay LOW, everything else is durable
+        let contrast = !written_fields.is_empty() && r.pct(50);
         for i in 0..prog.n_inputs {
             for f in 0..3 {
-                let d = *r.pick(&[Dur::Low, Dur::Low, Dur::Medium, Dur::High, Dur::High]);
+                let d = if contrast {
+                    if written_fields.contains(&(i, f)) { Dur::Low } else { *r.pick(&[Dur::Medium, Dur::High, Dur::High]) }
+                } else {
+                    *r.pick(&[Dur::Low, Dur::Low, Dur::Medium, Dur::High, Dur::High])
+                };
                 if d != Dur::Low {
                     field_durs.push((i as u16, f as u8, d));
                 }
@@ -317,7 +364,7 @@ pub fn make_conc_case(real_prop: &str, seed: u64, tier: Tier) -> Case {
         // single-handle check; the concurrent class concentrates on waiting threads
         fault_mask = (1 << Cb::BodyOp as u32) | (1 << Cb::ValEq as u32) | (1 << Cb::CycleFn as u32) | (1 << Cb::CycleInitial as u32);
     }
-    if real_prop == "C19" {
+    if real_prop == "C19" || real_prop == "C23" {
         class = format!("{prop}:{class}");
     }
     Case { property: real_prop.to_string(), engine: "e3".into(), class, seed, knobs, prog, world: (&world).into(), hist: vec![], panic_at, fault_mask, conc: Some(conc), expect: vec![] }
@@ -354,6 +401,19 @@ pub fn make_case_e1(prop: &str, seed: u64, tier: Tier) -> Case {
         if r.pct(33) {
             c.panic_at = Some(r.below(120));
         }
+        return c;
+    }
+    if prop == "C22" && Rng::new(seed ^ 0xC22_0001).pct(50) {
+        // fault enumeration also rides on the base histories of the classes that churn structs,
+        // interned slots and LRU values (their rare events — discards, slot reuse — become
+        // fault points inside histories that later revisit the affected memos)
+        let mut r = Rng::new(seed ^ 0xC22_0002);
+        let base = *r.pick(&["C07", "C07", "C07", "C07", "C09", "C06", "C05"]);
+        let mut c = make_case_e1(base, seed, tier);
+        c.class = format!("ride:{base}:{}", c.class);
+        c.property = "C22".into();
+        let cap = if tier == Tier::Thorough { 60 } else { 30 };
+        c.hist.truncate(cap);
         return c;
     }
     let mut r = Rng::new(seed ^ crate::rng::hash_str(0, prop));
@@ -607,6 +667,13 @@ pub fn make_case_e1(prop: &str, seed: u64, tier: Tier) -> Case {
                 c.block.1 = 8;
             }
             class = "fixpoint".into();
+            // tiny bodies: members that read (almost) nothing but each other, so what a member's
+            // memo records about the rest of the cycle decides whether it is revalidated
+            if r.pct(35) {
+                c.ops = (1, 3);
+                c.block = (2, 4);
+                class = "fixpoint+tiny".into();
+            }
             Some(c)
         }
         "C13" => {
@@ -675,6 +742,44 @@ pub fn make_case_e1(prop: &str, seed: u64, tier: Tier) -> Case {
             class = "fallback_single_revision".into();
         }
         let mut hist = gen_history(&mut r, &prog, &h);
+        if matches!(prop, "C12" | "C13" | "C14") && r.pct(35) {
+            // motif "finalize, then change one member's input": enter the cycle somewhere, request
+            // members directly (which finalizes their memos), write a field that a block member
+            // reads, enter through another node, request the members again
+            let blk: Vec<u16> = (prog.blk_lo..prog.blk_hi).collect();
+            let mut fields: Vec<(u16, u8)> = vec![];
+            for b in &blk {
+                for op in &prog.nodes[*b as usize].ops {
+                    if let Op::In { i, f, .. } = op {
+                        fields.push((*i, *f));
+                    }
+                }
+            }
+            if !blk.is_empty() && !fields.is_empty() {
+                let all: Vec<u16> = (0..prog.nodes.len() as u16).collect();
+                let mut m = vec![Step::Query { n: *r.pick(&all), arg: 0 }];
+                let k = r.range(1, blk.len());
+                for _ in 0..k {
+                    m.push(Step::Query { n: *r.pick(&blk), arg: 0 });
+                }
+                let (i, f) = *r.pick(&fields);
+                m.push(Step::SetIn { i, f, v: r.below(prog.m as u64) as u32, d: None });
+                m.push(Step::Query { n: *r.pick(&all), arg: 0 });
+                let mut order = blk.clone();
+                for a in (1..order.len()).rev() {
+                    let b = r.usize(a + 1);
+                    order.swap(a, b);
+                }
+                for b in order {
+                    m.push(Step::Query { n: b, arg: 0 });
+                }
+                let pos = r.usize(hist.len() + 1);
+                for (j, st) in m.into_iter().enumerate() {
+                    hist.insert(pos + j, st);
+                }
+                class = format!("{class}+finalize_motif");
+            }
+        }
         if let Some((i, f, _)) = prog.bad_guard {
             // make sure the guard is toggled: bad mode on early, off later
             let k = hist.len() / 2;
